@@ -47,6 +47,10 @@ func Harness_C05_append_only_and_wellformed() {
 		pipes.Compression = config.CompressionFormatGZipKey
 	}
 	v := c10PrestateWith(pipes)
+	if pipes.Compression == "" && vm.Bool("ustarMemberInDirectory") {
+		// an entry that a standard tar writer put into /d in ustar format (tapes written by other tools mix formats)
+		v.Env.AddForeignEntry("/d/u", tar.TypeReg, 0)
+	}
 	op := vm.Choice("op", c10Ops)
 	name := c10Names[vm.Choice("name", len(c10Names))]
 	other := c10Names[vm.Choice("other", 2)+3]
